@@ -134,6 +134,8 @@ class CallMixin:
             if cond is not None:
                 self.hazard(kind, z3.Not(cond["when"]), node, "%s raises %s" % (con.qualname, kind))
         res = self.fresh_result(con)
+        for f in wf(res):
+            self.fact(st, f)
         post = S.Ctx(bound, old=pre, result=res)
         for label, f in con.ensures(post):
             self.fact(st, f)
@@ -160,16 +162,19 @@ class CallMixin:
             rec = dict(recv.t)
             for a in con.modifies:
                 if a in rec:
-                    rec[a] = fresh(rec[a].ty, "%s.%s'" % (recv_name, a), self.classes_fields())
+                    rec[a] = fresh(rec[a].ty, "%s.%s_post" % (recv_name, a), self.classes_fields())
                 elif a in bound:
-                    post_env[a] = fresh(bound[a].ty, a + "'", self.classes_fields())
+                    post_env[a] = fresh(bound[a].ty, a + "_post", self.classes_fields())
                 else:
                     raise Unsupported("modifies %s of %s: no such attribute" % (a, con.qualname), node)
             post_env[recv_name] = Val(recv.ty, rec)
         else:
             for a in con.modifies:
-                post_env[a] = fresh(bound[a].ty, a + "'", self.classes_fields())
+                post_env[a] = fresh(bound[a].ty, a + "_post", self.classes_fields())
         res = self.fresh_result(con)
+        for v in [res] + [post_env[n] for n in post_env]:
+            for f in wf(v):
+                self.fact(st, f)
         post = S.Ctx(post_env, old=pre, result=res)
         # exceptional exits are handled by the statement layer
         self.pending_effect = (con, pre, post, post_env, recv_node, node)
@@ -344,7 +349,16 @@ class CallMixin:
         return Val(TBool, self.truthy(self.eval(node.args[0], st), node))
 
     def b_sorted(self, node, st):
-        raise Unsupported("sorted()", node)
+        v = self.eval(node.args[0], st)
+        if not isinstance(v.ty, TList):
+            h = self.sortedof_handlers.get(v.ty.key) or (self.sorted_of_set if isinstance(v.ty, TSet) else None)
+            if not h:
+                raise Unsupported("sorted() of %s" % v.ty, node)
+            return h(v, node, st) if h == self.sorted_of_set else h(self, v, node, st)
+        return self.sorted_perm(v, self._keyfn(node, st), st, node)
+
+    def sorted_of_set(self, v, node, st):
+        raise Unsupported("sorted() of a set", node)
 
     # ------------------------------------------------------ container methods
     def _mutate(self, recv_node, newval, st, node):
@@ -365,6 +379,65 @@ class CallMixin:
         if x.ty != recv.ty:
             raise Unsupported("extend with %s" % x.ty, node)
         return self._mutate(recv_node, self.list_concat(recv, x), st, node)
+
+    def apply_lambda(self, lam, args, st, node):
+        """Evaluate a lambda expression's body on the given values (pure)."""
+        if not isinstance(lam, ast.Lambda):
+            raise Unsupported("key function must be a lambda", node)
+        names = [a.arg for a in lam.args.args]
+        if len(names) != len(args):
+            raise Unsupported("lambda arity", node)
+        st2 = st.fork()
+        for n, v in zip(names, args):
+            st2.env[n] = v
+        r = self.eval(lam.body, st2)
+        st.pc.extend(st2.pc[len(st.pc):])
+        return r
+
+    def sorted_perm(self, lst, keyfn, st, node):
+        """A stable sort of lst by keyfn: fresh list + permutation axioms (DESIGN 4.2, assumed)."""
+        ty = lst.ty
+        n = l_len(lst.t)
+        R = z3.Const(fresh_name("sorted"), sort_of(ty))
+        pi = z3.Function(fresh_name("pi"), z3.IntSort(), z3.IntSort())
+        pinv = z3.Function(fresh_name("pinv"), z3.IntSort(), z3.IntSort())
+        a, b = z3.Int(fresh_name("a")), z3.Int(fresh_name("b"))
+        self.bound.append(a)
+        self.guards.append(z3.And(0 <= a, a < n))
+        try:
+            ka = keyfn(Val(ty.elem, l_at(R, a)))
+        finally:
+            self.guards.pop()
+            self.bound.pop()
+        if ka.ty not in (TInt, TReal):
+            raise Unsupported("sort key of type %s" % ka.ty, node)
+        kb = z3.substitute(ka.t, (a, b))
+        self.fact(st, l_len(R) == n)
+        self.fact(st, z3.ForAll([a], z3.Implies(z3.And(0 <= a, a < n), z3.And(0 <= pi(a), pi(a) < n, l_at(R, a) == l_at(lst.t, pi(a)), pinv(pi(a)) == a)),
+                                patterns=[l_at(R, a)]))
+        self.fact(st, z3.ForAll([a], z3.Implies(z3.And(0 <= a, a < n), z3.And(0 <= pinv(a), pinv(a) < n, pi(pinv(a)) == a)),
+                                patterns=[pinv(a)]))
+        self.fact(st, z3.ForAll([a, b], z3.Implies(z3.And(0 <= a, a < b, b < n), z3.And(ka.t <= kb, z3.Implies(ka.t == kb, pi(a) < pi(b)))),
+                                patterns=[z3.MultiPattern(l_at(R, a), l_at(R, b))]))
+        self.last_sort = dict(R=R, pi=pi, pinv=pinv)
+        return Val(ty, R)
+
+    def _keyfn(self, node, st):
+        key = None
+        for k in node.keywords:
+            if k.arg == "key":
+                key = k.value
+            else:
+                raise Unsupported("sort keyword %s" % k.arg, node)
+        if key is None:
+            return lambda v: v
+        return lambda v: self.apply_lambda(key, [v], st, node)
+
+    def m_list_sort(self, recv, node, st, recv_node):
+        if node.args:
+            raise Unsupported("sort args", node)
+        new = self.sorted_perm(recv, self._keyfn(node, st), st, node)
+        return self._mutate(recv_node, new, st, node)
 
     def m_set_add(self, recv, node, st, recv_node):
         (x,) = [self.eval(a, st) for a in node.args]
